@@ -53,6 +53,8 @@ pub struct OsState {
     pub procs: BTreeMap<PathBuf, Proc>,
     pub users: BTreeSet<String>,
     pub next_pid: u32,
+    /// a process that dies in the middle of an invocation is restarted at once under a new pid
+    pub respawn_on_death: bool,
     pub next_tcp_port: u16,
     pub next_udp_port: u16,
     /// every listening port a label was ever given by the OS
@@ -85,6 +87,7 @@ impl OsState {
     pub fn new() -> Self {
         OsState {
             next_pid: 1000,
+            respawn_on_death: false,
             next_tcp_port: 40000,
             next_udp_port: 50000,
             ..Default::default()
@@ -112,8 +115,18 @@ impl OsState {
         }
         let victim = self.procs.iter().find(|(k, p)| which(k, p)).map(|(k, p)| (k.clone(), p.label.clone(), p.pid));
         if let Some((bin, label, pid)) = victim {
-            self.procs.remove(&bin);
-            self.calls.push(format!("!! process of {label} dies (right before call #{n} of this invocation)"));
+            if self.respawn_on_death {
+                // the OS service manager restarts a crashed service at once: same service, new pid
+                let new_pid = self.next_pid;
+                self.next_pid += 1;
+                if let Some(p) = self.procs.get_mut(&bin) {
+                    p.pid = new_pid;
+                }
+                self.calls.push(format!("!! process of {label} dies and is restarted by the OS as pid {new_pid} (right before call #{n} of this invocation)"));
+            } else {
+                self.procs.remove(&bin);
+                self.calls.push(format!("!! process of {label} dies (right before call #{n} of this invocation)"));
+            }
             self.mid_op_killed.push((bin, label, None, pid));
         }
     }
@@ -253,8 +266,9 @@ impl ServiceControl for SimControl {
             .unwrap_or_default();
         os.maybe_die(|k, _| k.as_path() == path);
         let now = os.seq_no;
+        let respawned = os.respawn_on_death;
         for d in os.mid_op_killed.iter_mut() {
-            if d.0.as_path() == path && d.2.is_none() {
+            if d.0.as_path() == path && d.2.is_none() && !respawned {
                 d.2 = Some(now); // the manager gets to see that the process is gone
             }
         }
@@ -442,7 +456,8 @@ impl RpcActions for SimRpc {
                         .expect("multiaddr"),
                 ];
                 Ok(NetworkInfo {
-                    connected_peers: vec![peer_id_for("peer-a"), peer_id_for("peer-b")],
+                    // some nodes have no peers yet (just started, genesis, isolated)
+                    connected_peers: if p.pid % 3 == 0 { vec![] } else { vec![peer_id_for("peer-a"), peer_id_for("peer-b")] },
                     listeners,
                 })
             }
